@@ -33,7 +33,8 @@ ASSUME = [
     "getters that call get_or_add (paragraph alignment/level, DataLabels.show_*) are modelled by their value; their own insertion of an empty element is C12's subject (the harness reads every property once before the initial snapshot)",
     "ColorFormat is modelled for the colour kinds srgbClr / schemeClr / none",
     "oracle-only properties (tx/c09_oracle_only.json) are judged by the direct oracle only",
-    "float-valued properties: get_set is proved as get (set v t) = quantize v with quantize the translated conversion; the bound |quantize v - v| <= quantum is proved for the integer-valued conversions (EMU, centipoints) and checked bit-exactly on rounding-threshold grids for the float conversions (angles, percentages, line spacing)",
+    "get_set is proved as get (set v t) = quantize v with quantize the translated conversion; the bound |quantize v - v| <= quantum is proved for EMU (exact), centipoints (Font.size, paragraph spacing in points), ST_Percentage (crop, gradient stop, lumMod/lumOff: C09_percentage_quantum) and ST_Angle (rotation: C09_angle_quantum) for every accepted value; for line spacing in lines, gradient angle (ST_PositiveFixedAngle), adjustments and xsd:double attributes it is checked bit-exactly on threshold grids only",
+    "binary64 arithmetic is the exact model lib/PyFloat.v (error bounds of rounding, product and quotient proved in proofs/Props_proofs.v); that CPython computes the same is validated bit-exactly, not proved",
 ]
 
 
@@ -183,7 +184,7 @@ def drop_opaque(st, opaque):
 # ------------------------------------------------------------------ property descriptions
 class P:
     def __init__(self, attr, label, valid=(), invalid=(), unjudged=(), none=None, quantum=0, cmp=None,
-                 cls=None, group=None, truthy=False):
+                 cls=None, group=None, truthy=False, persist=True):
         self.attr = attr            # python attribute name
         self.label = label          # catalogue label Class.prop[@variant] or None (oracle only)
         self.valid = list(valid)
@@ -195,10 +196,23 @@ class P:
         self.cls = cls or (label.split(".")[0] if label else None)
         self.group = group          # name of a dependency group (properties that are facets of one setting)
         self.truthy = truthy
+        self.persist = persist       # False: an in-memory setting that is not written to the file
 
     @property
     def name(self):
         return "%s.%s" % (self.cls, self.attr)
+
+
+class SlideRef:
+    """a value that only exists relative to the presentation under test: the idx-th slide"""
+    def __init__(self, idx):
+        self.idx = idx
+
+    def resolve(self, prs):
+        return prs.slides[self.idx]
+
+    def __repr__(self):
+        return "<slide #%d of the same presentation>" % self.idx
 
 
 COMPLEX = 7.5 + 2j
@@ -268,8 +282,9 @@ def str_prop(attr, label, nullable=False, none_reads=None, **kw):
 
 # ------------------------------------------------------------------ object kinds
 class Kind:
-    def __init__(self, name, build, nav, anchor, props, nv=False, opaque=(), pseudo=None, part=None, groups=()):
+    def __init__(self, name, build, nav, anchor, props, nv=False, opaque=(), pseudo=None, part=None, groups=(), reopen=False):
         self.name, self.build, self.nav, self.anchor, self.props = name, build, nav, anchor, props
+        self.reopen = reopen
         self.nv, self.opaque, self.pseudo, self.part = nv, tuple(opaque), pseudo, part
         self.groups = groups
 
@@ -663,6 +678,54 @@ def make_kinds(rng):
         int_prop("size", "Marker.size", 2, 72, rng, none=("reads", None), length=False),
         enum_prop("style", "Marker.style", XL_MARKER_STYLE),
     ], part=chart_part))
+    txt = lambda: ["", "x", "Title 1", "a<b>&\"c'", "café 日本 \U0001F600", " lead/trail "]
+    K.append(Kind("shape_text", b_autoshape, sh0, lambda o: o._element, [
+        P("text", None, txt() + ["two\nparagraphs"], [5, None], [], cls="Shape")], nv=True, reopen=True))
+    K.append(Kind("paragraph_text", b_textbox, lambda prs: sh0(prs).text_frame.paragraphs[0], lambda o: o._p, [
+        P("text", None, txt(), [5, None], [], cls="_Paragraph")]))
+    K.append(Kind("run", b_textbox, lambda prs: sh0(prs).text_frame.paragraphs[0].runs[0], lambda o: o._r, [
+        P("text", None, txt(), [5, None], [], cls="_Run")]))
+    urls = ["http://example.org/a?b=1&c=2", "https://example.com/", "mailto:x@y.z"]
+    K.append(Kind("shape_hyperlink", b_autoshape, lambda prs: sh0(prs).click_action.hyperlink, None, [
+        P("address", None, urls, [], [5], none=("reads", None), cls="Hyperlink")], reopen=True))
+    K.append(Kind("run_hyperlink", b_textbox, lambda prs: sh0(prs).text_frame.paragraphs[0].runs[0].hyperlink, None, [
+        P("address", None, urls, [], [5], none=("reads", None), cls="_Hyperlink")], reopen=True))
+
+    def b_two_slides():
+        prs = b_autoshape()
+        prs.slides.add_slide(prs.slide_layouts[6])
+        return prs
+    K.append(Kind("click_action", b_two_slides, lambda prs: sh0(prs).click_action, None, [
+        P("target_slide", None, [SlideRef(1), SlideRef(0)], [], [5, "abc"], none=("reads", None), cls="ActionSetting")], reopen=True))
+    K.append(Kind("shapes", b_autoshape, lambda prs: prs.slides[0].shapes, None, [
+        truthy_prop("turbo_add_enabled", None, cls="_BaseShapes", persist=False)]))
+    K.append(Kind("color_object", b_solid, lambda prs: sh0(prs).fill.fore_color._color, None, [
+        float_prop("brightness", None, -1.0, 1.0, rng, Fraction(1, 100000), extra_valid=[0, 0.4, -0.25], cls="_Color",
+                   unjudged=[1.5, -1.5, math.nan])], reopen=True))
+    K[-1].props[0].invalid = [v for v in K[-1].props[0].invalid if not (isinstance(v, float) and v != v)]
+    K.append(Kind("axis_title", b_bar, lambda prs: chart0(prs).value_axis.axis_title, None, [
+        truthy_prop("has_text_frame", None, cls="AxisTitle")], part=chart_part, reopen=True))
+
+    def b_titled():
+        prs = b_bar()
+        chart0(prs).has_title = True
+        return prs
+    K.append(Kind("chart_title", b_titled, lambda prs: chart0(prs).chart_title, None, [
+        truthy_prop("has_text_frame", None, cls="ChartTitle")], part=chart_part, reopen=True))
+    K.append(Kind("data_label", b_bar, lambda prs: chart0(prs).plots[0].series[0].points[1].data_label, None, [
+        enum_prop("position", None, XL_LABEL_POSITION, cls="DataLabel"),
+        truthy_prop("has_text_frame", None, cls="DataLabel")], part=chart_part, reopen=True))
+
+    def b_chart_data():
+        from pptx.chart.data import CategoryChartData
+        cd = CategoryChartData()
+        cd.categories = ["a", "b"]
+        return cd
+    K.append(Kind("chart_data", b_chart_data, lambda cd: cd, None, [
+        P("categories", None, [["x", "y", "z"], ["only"]], [], [], cls="CategoryChartData",
+          cmp=lambda r, v: [c.label for c in r] == list(v))], part=lambda prs, o: None))
+    K.append(Kind("chart_data_categories", b_chart_data, lambda cd: cd.categories, None, [
+        P("number_format", None, ["General", "0.0", "yyyy\\-mm"], [], [], cls="Categories")], part=lambda prs, o: None))
     K.append(Kind("adjustment", b_autoshape, lambda prs: sh0(prs).adjustments._adjustments_[0], None, [
         float_prop("effective_value", "Adjustment.effective_value", -2.0, 3.0, rng, Fraction(1, 100000), extra_valid=[0, 1, 0.29, 0.16667, 0.5],
                    unjudged=[1e300])],
@@ -695,6 +758,8 @@ def part_of(kind, prs, obj):
 
 def c14n(part):
     from lxml import etree
+    if part is None:
+        return b""
     return etree.tostring(part._element, method="c14n")
 
 
@@ -764,6 +829,8 @@ def eq_reading(a, b):
     if a[0] == "err":
         return a[2] == b[2]
     x, y = a[1], b[1]
+    if hasattr(x, "slide_id") and hasattr(y, "slide_id"):
+        return x.slide_id == y.slide_id
     if isinstance(x, float) and isinstance(y, float):
         return x == y or (x != x and y != y)
     return type(x) is type(y) and x == y
@@ -781,6 +848,8 @@ def expected_ok(p, read, v):
             return False
     if p.truthy:
         return r is bool(v) or r == bool(v)
+    if getattr(v, "xml_value", None) and getattr(r, "xml_value", None) == v.xml_value and type(r) is type(v):
+        return True          # two members carrying the same XML token: bijectivity of the enumerations is C20's obligation
     if isinstance(v, bool) or isinstance(r, bool):
         return r == v
     if isinstance(v, (int, float)) and isinstance(r, (int, float)):
@@ -814,6 +883,10 @@ def val_spec(v):
         return {"t": "bytes", "v": v.decode("latin-1")}
     if isinstance(v, tuple):
         return {"t": "tuple", "v": list(v)}
+    if isinstance(v, SlideRef):
+        return {"t": "slide", "v": v.idx}
+    if hasattr(v, "slide_id"):
+        return {"t": "other", "v": "slide"}
     return {"t": "other", "v": repr(v)}
 
 
@@ -840,6 +913,8 @@ def val_from_spec(d):
         return d["v"].encode("latin-1")
     if t == "tuple":
         return tuple(d["v"])
+    if t == "slide":
+        return SlideRef(d["v"])
     return object()
 
 
@@ -851,12 +926,17 @@ def oracle_trial(ck, kind, p, v, verdict, reopen, stats, where="fresh", prs=None
     prs = prs if prs is not None else kind.build()
     nav = nav or kind.nav
     obj = nav(prs)
+    if not isinstance(getattr(type(obj), p.attr, None), property):
+        stats["skipped_not_a_property_of_this_class"] = stats.get("skipped_not_a_property_of_this_class", 0) + 1
+        return
     for q in kind.props:           # getters that get_or_add run once before the snapshot
         getp(obj, q.attr)
     if prepare is not None:
         prepare(obj)
         obj = nav(prs)
     part = part_of(kind, prs, obj)
+    if isinstance(v, SlideRef):
+        v = v.resolve(prs)
     if twin is not None:
         prs_t = twin()
         obj_t = nav(prs_t)
@@ -917,7 +997,7 @@ def oracle_trial(ck, kind, p, v, verdict, reopen, stats, where="fresh", prs=None
                 p.name, v, kind.name, q.name, reading_repr(before[q.attr]), reading_repr(now)),
                 dict(rec, impl_outcome="%s: %s -> %s" % (q.name, reading_repr(before[q.attr]), reading_repr(now))))
     # save + re-open
-    if reopen and kind.anchor is not None:
+    if reopen and p.persist and (kind.anchor is not None or kind.reopen):
         from pptx import Presentation
         buf = io.BytesIO()
         try:
@@ -952,7 +1032,9 @@ def run_history(kind, ops, prs=None, nav=None):
     """-> (model case fields, implementation outcomes, final implementation state)"""
     prs = prs if prs is not None else kind.build()
     obj = (nav or kind.nav)(prs)
-    mp = [p for p in kind.props if p.label]
+    isprop = lambda p: isinstance(getattr(type(obj), p.attr, None), property)
+    mp = [p for p in kind.props if p.label and isprop(p)]
+    ops = [(p, v) for p, v in ops if isprop(p)]
     for q in kind.props:
         getp(obj, q.attr)
     st0 = model_state(kind, obj)
@@ -1222,7 +1304,7 @@ def run(ck, tier, rng):
 
     # ---- correspondence on fresh objects: random histories
     cases, expect = [], []
-    n_hist = 12 if quick else 120
+    n_hist = 12 if quick else 400
     for k in kinds:
         if not any(p.label for p in k.props):
             continue
@@ -1243,7 +1325,7 @@ def run(ck, tier, rng):
 
     # ---- corpus decks
     from pptx import Presentation
-    objs, ndecks = corpus_objects(rng, 60 if quick else 400)
+    objs, ndecks = corpus_objects(rng, 60 if quick else 900)
     stats["corpus_decks"] = ndecks
     for kname, path, nav in objs:
         k = by_name.get(kname)
@@ -1364,6 +1446,8 @@ def replay(rec):
     part = part_of(k, prs, obj)
     st0 = model_state(k, obj)
     x0 = c14n(part)
+    if isinstance(v, SlideRef):
+        v = v.resolve(prs)
     res = setp(obj, p.attr, v)
     x1 = c14n(part)
     print("%s = %r on a %s -> %s ; XML of the part %s" % (p.name, v, k.name, res, "UNCHANGED" if x0 == x1 else "CHANGED"))
@@ -1377,6 +1461,6 @@ def replay(rec):
 CLAIM = {
     "tech": "Coq proof: generic theorems over a small setter/getter language (model/Props.v) for ALL values and ALL well-formed element states, instantiated on a catalogue of the public properties whose attribute codecs are the translated simple-type code of C11; exact correspondence of the extracted model on random assignment histories (fresh objects + corpus decks); direct oracle incl. save + re-open",
     "text": "C09_get_set / C09_none / C09_reject / C09_frame / C09_history are proved for every state and value; the catalogue (model/PropCatalogue.v) instantiates them for the public properties, with value domains and quanta taken from gen/GenC11.v; C09_catalogue_complete forces every settable property (regenerated from /repo each run) into the catalogue or the committed oracle-only list. The check compares the model's exact predicted outcome, read-back and element state with the implementation over random histories and runs the property's statement directly (read-after-write, re-open, None, rejection leaves XML unchanged, sibling readings unchanged).",
-    "note": "proxy-level plumbing is hand-transcribed (tied by correspondence); oracle-only properties and float quantum bounds are not covered by a universally quantified theorem; save/re-open relies on lxml.",
+    "note": "proxy-level plumbing is hand-transcribed (tied by correspondence); oracle-only properties are not covered by a theorem; quantum bounds are proved for EMU, centipoints, percentages and rotation, the other float conversions are checked bit-exactly only; reject-with-unchanged-state is REFUTED by the model for the setters that mutate before validating (witness theorems + replay); save/re-open relies on lxml.",
     "ref": "6/C09",
 }
